@@ -25,7 +25,7 @@ RULE = (
 ASSUMPTIONS = [
     "The fold's lambda text is not pinned by the property: each produced Aggregate(seq, init, f) is checked "
     "extensionally (init, f closed; value on generated sequences equals len/sum/max(0,..)/min(0,..)).",
-    "Keyword arguments on shortcut calls are not generated (the statement speaks of argument counts only).",
+    "A keyword or starred argument makes a call one with another argument count: it must stay as it is (its arguments are still visited).",
     "Python's own compile/eval is the evaluator.",
 ]
 BUDGET = {"quick": (4, 1500), "thorough": (16, 12000)}
@@ -110,6 +110,10 @@ def _env(data):
 # generator
 
 
+def _paren_s(x):
+    return x if x[0].isalpha() and "(" not in x else f"({x})"
+
+
 @st.composite
 def _expr(draw, ty, depth, ivars):
     """ty: 'I' int, 'S' seq of int, 'B' bool. ivars: int variable names in scope."""
@@ -164,6 +168,12 @@ def _expr(draw, ty, depth, ivars):
         return "o." + draw(st.sampled_from(NAMES))
     if k in (3, 4, 5, 6):  # 1-argument shortcut call
         return f"{draw(st.sampled_from(NAMES))}({draw(_expr('S', depth - 1, ivars))})"
+    if k == 7 and draw(st.integers(0, 2)) == 0:
+        # other argument counts, spelled with a keyword or a starred argument next to / instead of the one positional argument: the
+        # call stays as it is (shortcuts inside its arguments are still lowered)
+        name = draw(st.sampled_from(NAMES))
+        seq = draw(_expr("S", depth - 1, ivars))
+        return draw(st.sampled_from([f"{name}({seq}, start={draw(_expr('I', depth - 2, ivars))})", f"{name}(*{_paren_s(seq)})", f"{name}({seq}, *{_paren_s(seq)})"]))
     if k == 7:  # other argument counts
         name = draw(st.sampled_from(NAMES))
         n = draw(st.sampled_from([0, 2, 3]))
@@ -238,7 +248,7 @@ def _reference(node):
     class R(ast.NodeTransformer):
         def visit_Call(self, n):
             self.generic_visit(n)
-            if isinstance(n.func, ast.Name) and n.func.id in NAMES and len(n.args) == 1 and not n.keywords:
+            if isinstance(n.func, ast.Name) and n.func.id in NAMES and len(n.args) == 1 and not n.keywords and not isinstance(n.args[0], ast.Starred):
                 return ast.Call(
                     func=ast.Name(id="Aggregate", ctx=ast.Load()),
                     args=[n.args[0], ast.Name(id=_PH + n.func.id, ctx=ast.Load())],
